@@ -27,5 +27,6 @@ def run(ctx):
     # reopen shows (real files, transactions spanning persists, index builds over unpersisted rows)
     import durcommon
     for k in range(3 if ctx.thorough() else 1):
-        durcommon.run_file(ctx, "reopen", 20 if ctx.thorough() else 4, 0, "C16r" + "x" * k)
+        durcommon.run_file(ctx, "reopen", 20 if ctx.thorough() else 4, 0, "C16r" + "x" * k,
+                           extra_env={"VERIF_SPAN_OFTEN": "1"})  # many transactions spanning persists
     ctx.assumptions += dbcommon.ASSUME
